@@ -1791,7 +1791,7 @@ CLAUSES = [
     Clause('displacement', oracle_displacement, G17.displacement_cases, quick=1200, thorough=20000,
            min_share={'nt': 0.3, 'rewrapped': 0.4, 'direct': 0.25, 'box_differs': 0.08, 'searched': 0.05,
                       'queried0': 0.35, 'queried1': 0.35, 'q_other_shells': 0.13, 'inplace_built': 0.22, 'ref_inplace_built': 0.12,
-                      'cur_inplace_built': 0.16, 'decoy': 0.15, 'repeat': 0.18, 'int_pos': 0.015,
+                      'cur_inplace_built': 0.16, 'decoy': 0.15, 'repeat': 0.18, 'int_pos': 0.008,
                       'unit_1': 0.14, 'unit_small': 0.14, 'unit_si': 0.07, 'unit_large': 0.03},
            desc='displacement() = imposed displacement through the periodic boundaries (homogeneous F with deformed cell, rigid slip, '
                 'random per-atom vectors up to 0.45 cell widths, translations by several cells), every box_reference setting, on '
@@ -1800,8 +1800,8 @@ CLAUSES = [
            min_share={'nt': 0.15, 'F_both': 0.2, 'subset_dup': 0.06, 'wrapper': 0.1, 'surface': 0.15, 'axes_given': 0.08,
                       'nbr_neighbors': 0.1, 'twotype': 0.15, 'theta_given': 0.15,
                       'queried0': 0.35, 'queried1': 0.35, 'q_other_shells': 0.25, 'am_wrapped': 0.07, 'strain_resolved': 0.2,
-                      'sh_inplace': 0.1, 'sh_pvec': 0.06, 'rs_solve': 0.1, 'derived_read_before': 0.2, 'derived_read_first': 0.4,
-                      'stage0_judged': 0.17, 'dd_resolved': 0.22, 'nbr_attr': 0.1,
+                      'sh_inplace': 0.1, 'sh_pvec': 0.04, 'rs_solve': 0.07, 'derived_read_before': 0.2, 'derived_read_first': 0.4,
+                      'stage0_judged': 0.10, 'dd_resolved': 0.22, 'nbr_attr': 0.1,
                       'unit_1': 0.14, 'unit_small': 0.14, 'unit_si': 0.07, 'unit_large': 0.03},
            desc='homogeneous F: Strain.G = F^-T at every atom with a 3-D neighbour set, strain/rotation/invariants/angular velocity, '
                 'zero Nye tensor, asdict, save_to_system, nye_tensor() function, (F-I).d0 differential displacements; for fresh '
@@ -1811,7 +1811,7 @@ CLAUSES = [
                       'inplane_open': 0.1, 'ddref1': 0.15, 'both_halves_move': 0.2,
                       'queried0': 0.33, 'queried1': 0.33, 'q_other_shells': 0.22, 'q_r0': 0.07, 'inplace_built': 0.22,
                       'ref_inplace_built': 0.12, 'cur_inplace_built': 0.15, 'decoy': 0.15, 'repeat': 0.18, 'dd_resolved': 0.18,
-                      'sv_attr': 0.07, 'int_pos': 0.015,
+                      'sv_attr': 0.07, 'int_pos': 0.008,
                       # (no guard on 'unit_si' here and below: on the unchanged code those cases end in the open finding
                       # KEY_DISREG_UNIT - after slip vector, differential displacements and Nye tensor were judged - and
                       # cases excluded by an open finding carry no labels)
